@@ -107,6 +107,15 @@ class x12xml_simple(x12xml):
                 if seg_data.elements[i].format() == '':
                     pass
                     #self.writer.empty(u"ele", attrs={u'id': child_node.id})
+                elif seg_data.elements[i].is_composite():
+                    # a simple element sent with components (reported as an error): keep them apart, named by position
+                    ele_data = seg_data.elements[i]
+                    (xname, attrib) = self._get_comp_info(child_node.id)
+                    self.writer.push(xname, attrib)
+                    for j in range(len(ele_data)):
+                        (xname, attrib) = self._get_subele_info('%s-%02i' % (child_node.id, j + 1))
+                        self.writer.elem(xname, ele_data[j].get_value(), attrib)
+                    self.writer.pop()
                 else:
                     (xname, attrib) = self._get_ele_info(child_node.id)
                     self.writer.elem(xname, seg_data.elements[i].format(), attrib)
